@@ -10,7 +10,8 @@ from . import common as C
 from . import tb
 
 
-def run(pid, ev, rep, tmp, tests=('tests',)):
+def collect(tmp, tests=('tests',)):
+    """run lark's tests under the recorders; returns (directory with the recordings, tail of pytest's output)"""
     out = os.path.join(tmp, 'suite_out')
     os.makedirs(out, exist_ok=True)
     env = dict(os.environ, VERIF_SUITE_OUT=out, PYTHONPATH=C.VERIF + os.pathsep + C.REPO)
@@ -19,6 +20,43 @@ def run(pid, ev, rep, tmp, tests=('tests',)):
     tail = r.stdout.decode('utf8', 'replace')[-400:]
     if r.returncode not in (0, 1):
         raise C.MachineryFailure('the test suite did not run under the recorder: %s' % tail)
+    return out, tail
+
+
+def digraph_calls(ev, tmp):
+    """C02 (drift level): every digraph() call the test suite makes returns the least solution (TraceDigraph)"""
+    out, tail = collect(tmp)
+    calls = []
+    for f in sorted(glob.glob(os.path.join(out, '*.digraph.ndjson'))):
+        calls += [json.loads(line) for line in open(f)]
+    shutil.rmtree(out, ignore_errors=True)
+    seen, uniq = set(), []
+    for c in calls:
+        key = json.dumps(c, sort_keys=True)
+        if key not in seen:
+            seen.add(key)
+            uniq.append(c)
+    ev.count('suite_digraph_calls', len(uniq))
+    if len(uniq) < 100:
+        raise C.MachineryFailure('the recorder saw only %d digraph calls in the test suite: %s' % (len(uniq), tail))
+    CH = 1500
+    paths = [C.write_batch({'cases': uniq[o:o + CH]}, tmp, 'suite_dg_%d.json' % o) for o in range(0, len(uniq), CH)]
+    results = C.tlc_parallel('TraceDigraph', 'SPECIFICATION Spec\nINVARIANT VerdictOk\nCHECK_DEADLOCK FALSE\n', paths, continue_=True, timeout=3000)
+    drift = 0
+    for pi, r in enumerate(results):
+        C.tlc_must_run(r, 'TraceDigraph (suite)')
+        ev.add_tlc('TraceDigraph:suite', r, 'trace')
+        drift += len(set(tuple(x) for x in r.verdicts))
+        os.remove(paths[pi])
+    ev.cov['drift'] = ev.cov.get('drift', 0) + drift
+    ev.cov['traces_validated_against_impl'] = ev.cov.get('traces_validated_against_impl', 0) + len(uniq)
+    if drift:
+        print('DRIFT property=C02 lalr_analysis.digraph returned a result that is not the least solution for %d call(s) made by the test suite' % drift)
+    return drift
+
+
+def run(pid, ev, rep, tmp, tests=('tests',)):
+    out, tail = collect(tmp, tests)
     if pid == 'C06':
         lexed_tokens(out, ev, rep, tmp)
     cases = []
